@@ -206,7 +206,7 @@ def run(chk, replay=None):
             if key not in groups or cand[:2] < groups[key][:2]:
                 groups[key] = cand
     edge = lambda sid: (by_sid.get(sid) or {}).get("class", "plain") != "plain"
-    order = sorted(groups, key=lambda k: (edge(k[0]), groups[k][0], k[2] != "mb", descs[k[0]]["n"], k[0], k[1]))
+    order = sorted(groups, key=lambda k: (edge(k[0]), edge(k[0]) and k[2] == "mb", groups[k][0], k[2] != "mb", descs[k[0]]["n"], k[0], k[1]))
     # one witness per kind of defect first (kind of cut; each unusual-but-valid stream is its own kind), then more streams
     seen_lab, first, rest = set(), [], []
     for k in order:
@@ -252,7 +252,12 @@ def run(chk, replay=None):
                     f"the split run delivered {len(got)} events, the one-read run {len(ref)}")
             sig = f"C03:{prop}:{sid}:{lab}:cuts={scuts}"
             dline = next(b for b in confirm if "def" in b and b["def"]["sid"] == sid)
-            chk.violation(sig, what, [dline, {"sid": sid, "cuts": cuts, "src": "replay"}] + _case_lines(c["trace"], sid + "/ref") + lines)
+            # not under out/C03/: vf.Check() empties that directory when the replay command starts
+            rdir = os.path.join(vf.OUT, "replay", "C03" if not replay else "C03-replayed")
+            os.makedirs(rdir, exist_ok=True)
+            rpath = os.path.join(rdir, f"violation-{len(chk.violations) + 1}.ndjson")
+            vf.write_ndjson(rpath, [dline, {"sid": sid, "cuts": cuts, "src": "replay"}] + _case_lines(c["trace"], sid + "/ref") + lines)
+            chk.violation(sig, what, replay_path=rpath)
     chk.assumptions += [
         "a stream restart never shares a read with the data before it (the new header answers something the receiver sent)",
         "content of a stream-open event = name, namespace and attributes of <stream:stream> (children excluded); content of a stanza = "
